@@ -320,3 +320,231 @@ Proof.
       rewrite ?(wrap_I32_fld _ OC), ?(wrap_I32_fld _ OI), ?(wrap_I32_fld _ OM), ?(wrap_I32_fld _ OF)));
     match goal with |- context [negb (?x =? 0)] => destruct (x =? 0) end; reflexivity.
 Qed.
+
+(* ------------------------------------------------------------------ uc_cput *)
+(* the cells o .. o + |vs| - 1 of a block replaced by vs, every other cell kept *)
+Definition put_cells (blk : block) (o : nat) (vs : list val) : block :=
+  firstn o blk ++ vs ++ skipn (o + length vs) blk.
+Lemma put_cells_nil blk o : put_cells blk o [] = blk.
+Proof. unfold put_cells. cbn [app length]. rewrite Nat.add_0_r. apply firstn_skipn. Qed.
+Lemma put_cells_snoc blk o vs v : (o + length vs < length blk)%nat ->
+  upd (put_cells blk o vs) (o + length vs) v = put_cells blk o (vs ++ [v]).
+Proof.
+  intro H. unfold put_cells. rewrite app_assoc.
+  assert (L : length (firstn o blk ++ vs) = (o + length vs)%nat) by (rewrite app_length, firstn_length; lia).
+  rewrite <- L. rewrite upd_prefix by lia. rewrite L, <- !app_assoc. do 3 f_equal. f_equal. rewrite app_length. cbn [length]. lia.
+Qed.
+Lemma put_cells_length blk o vs : (o + length vs <= length blk)%nat -> length (put_cells blk o vs) = length blk.
+Proof. intro H. unfold put_cells. rewrite !app_length, firstn_length, skipn_length. lia. Qed.
+(* what a cell of the new block holds *)
+Lemma put_cells_inside blk o vs k : (o <= length blk)%nat -> (k < length vs)%nat ->
+  nth_error (put_cells blk o vs) (o + k) = nth_error vs k.
+Proof.
+  intros Ho Hk. unfold put_cells. rewrite nth_error_app2 by (rewrite firstn_length; lia).
+  rewrite firstn_length, Nat.min_l by lia. replace (o + k - o)%nat with k by lia. apply nth_error_app1. exact Hk.
+Qed.
+Lemma put_cells_outside blk o vs k : (o + length vs <= length blk)%nat -> (k < o \/ o + length vs <= k)%nat ->
+  nth_error (put_cells blk o vs) k = nth_error blk k.
+Proof.
+  intros Ho Hk. unfold put_cells. destruct Hk as [Hk|Hk].
+  - rewrite nth_error_app1 by (rewrite firstn_length; lia). apply nth_error_firstn_lt. exact Hk.
+  - rewrite nth_error_app2 by (rewrite firstn_length; lia). rewrite firstn_length, Nat.min_l by lia.
+    rewrite nth_error_app2 by lia. rewrite nth_error_skipn_add. f_equal. lia.
+Qed.
+
+(* a store just behind the cells written so far *)
+Lemma store_put (mm : mem) b blk o vs v p : nth_error mm b = Some (put_cells blk o vs) ->
+  (o + length vs < length blk)%nat -> p = Z.of_nat (o + length vs) ->
+  store mm b p v = Ok (upd mm b (put_cells blk o (vs ++ [v]))).
+Proof.
+  intros Hm Hl ->. rewrite (store_ok mm b _ _ v Hm) by (rewrite put_cells_length; lia).
+  rewrite Nat2Z.id, put_cells_snoc by exact Hl. reflexivity.
+Qed.
+Lemma upd_mem_same (mm : mem) b (x : block) y : nth_error mm b = Some y -> nth_error (upd mm b x) b = Some x.
+Proof. intro H. apply mem_upd_same. apply nth_error_Some. congruence. Qed.
+Lemma upd_mem_upd (mm : mem) b (x y z : block) : nth_error mm b = Some z -> upd (upd mm b x) b y = upd mm b y.
+Proof. intro H. apply upd_upd. apply nth_error_Some. congruence. Qed.
+
+Lemma wrap_I8_idem x : wrap I8 (wrap I8 x) = wrap I8 x.
+Proof.
+  unfold wrap. cbn [ity_bits ity_signed andb]. change (2 ^ 8) with 256. change (2 ^ (8 - 1)) with 128.
+  pose proof (Z.mod_pos_bound x 256 ltac:(lia)) as B. destruct (Z.leb_spec 128 (x mod 256)) as [L|L].
+  - replace ((x mod 256 - 256) mod 256) with (x mod 256).
+    + destruct (Z.leb_spec 128 (x mod 256)); [reflexivity|lia].
+    + rewrite <- (Z.mod_add (x mod 256 - 256) 1 256) by lia.
+      replace (x mod 256 - 256 + 1 * 256) with (x mod 256) by lia. rewrite Z.mod_mod by lia. reflexivity.
+  - rewrite Z.mod_mod by lia. destruct (Z.leb_spec 128 (x mod 256)); [lia|reflexivity].
+Qed.
+
+(* the continuation bytes the loop `while (l--) *d++ = 0x80 | ((c >> (l * 6)) & 0x3f)` writes, as char cells *)
+Fixpoint conts (c : Z) (l : nat) : list val :=
+  match l with
+  | O => []
+  | S k => VInt (wrap I8 (Z.lor 128 (Z.land (Z.shiftr c (Z.of_nat k * 6)) 63))) :: conts c k
+  end.
+Lemma conts_length c l : length (conts c l) = l.
+Proof. induction l as [|l IH]; cbn [conts length]; [reflexivity|]. rewrite IH. reflexivity. Qed.
+
+Definition cput_loop : stmt := match fn_body cf_uc_cput with SSeq _ (SSeq _ (SSeq w _)) => w | _ => SSkip end.
+
+Lemma cput_loop_ok call b blk o c :
+  forall l fuel vs mm p, (l <= 3)%nat -> (l < fuel)%nat -> nth_error mm b = Some (put_cells blk o vs) ->
+  (o + length vs + l <= length blk)%nat -> p = Z.of_nat (o + length vs) ->
+  exec call fuel cput_loop (mkst [VPtr b p; VInt c; VInt (Z.of_nat l)] mm)
+  = ONormal (mkst [VPtr b (p + Z.of_nat l); VInt c; VInt (-1)] (upd mm b (put_cells blk o (vs ++ conts c l)))).
+Proof.
+  induction l as [|l IH]; intros fuel vs mm p Hl Hf Hm Hroom Hp; (destruct fuel as [|fuel]; [lia|]);
+    unfold cput_loop; cbn [fn_body cf_uc_cput]; rewrite exec_while; xstep.
+  - change (chk I32 (Z.of_nat 0 + -1)) with (@Ok Z (-1)). xstep. change (Z.of_nat 0 =? 0) with true. xstep.
+    cbn [conts]. rewrite app_nil_r, Z.add_0_r. rewrite (upd_self mm b _ Hm). reflexivity.
+  - rewrite (chk_I32 (Z.of_nat (S l) + -1)) by lia. xstep.
+    destruct (Z.eqb_spec (Z.of_nat (S l)) 0) as [E|_]; [lia|]. xstep.
+    replace (Z.of_nat (S l) + -1) with (Z.of_nat l) by lia.
+    rewrite (chk_I32 (Z.of_nat l * 6)) by lia. xstep.
+    destruct (Z.leb_spec 0 (Z.of_nat l * 6)); [|lia]. destruct (Z.ltb_spec (Z.of_nat l * 6) 32); [|lia]. xstep.
+    rewrite wrap_I8_idem.
+    rewrite (store_put mm b blk o vs _ p Hm) by lia. xstep.
+    change (SWhile _ _) with cput_loop.
+    rewrite (IH fuel (vs ++ [VInt (wrap I8 (Z.lor 128 (Z.land (Z.shiftr c (Z.of_nat l * 6)) 63)))]) _ (p + 1));
+      try lia.
+    + rewrite (upd_mem_upd mm b _ _ _ Hm). cbn [conts]. rewrite <- app_assoc. cbn [app].
+      do 4 f_equal. lia.
+    + apply (upd_mem_same mm b _ _ Hm).
+    + rewrite app_length. cbn [length]. lia.
+    + rewrite app_length. cbn [length]. lia.
+Qed.
+
+(* a byte of the model as the char cell the C text stores *)
+Definition schar (x : N) : val := VInt (wrap I8 (Z.of_N x)).
+
+Lemma lead_cell k0 sh c : Z.lor (Z.of_N k0) (Z.shiftr (Z.of_N c) (Z.of_N sh)) = Z.of_N (N.lor k0 (N.shiftr c sh)).
+Proof. rewrite of_N_shiftr, of_N_lor. reflexivity. Qed.
+Lemma cont_cell sh c :
+  Z.lor 128 (Z.land (Z.shiftr (Z.of_N c) (Z.of_N sh)) 63) = Z.of_N (N.lor 128 (N.land (N.shiftr c sh) 63)).
+Proof. rewrite of_N_shiftr. change 63 with (Z.of_N 63). rewrite of_N_land. change 128 with (Z.of_N 128). rewrite of_N_lor. reflexivity. Qed.
+
+Lemma lead_cell4 c : Z.lor 240 (Z.shiftr (Z.of_N c) 18) = Z.of_N (N.lor 240 (N.shiftr c 18)).
+Proof. exact (lead_cell 240 18 c). Qed.
+Lemma lead_cell3 c : Z.lor 224 (Z.shiftr (Z.of_N c) 12) = Z.of_N (N.lor 224 (N.shiftr c 12)).
+Proof. exact (lead_cell 224 12 c). Qed.
+Lemma lead_cell2 c : Z.lor 192 (Z.shiftr (Z.of_N c) 6) = Z.of_N (N.lor 192 (N.shiftr c 6)).
+Proof. exact (lead_cell 192 6 c). Qed.
+Lemma cont_cell2 c : Z.lor 128 (Z.land (Z.shiftr (Z.of_N c) (Z.of_nat 2 * 6)) 63) = Z.of_N (N.lor 128 (N.land (N.shiftr c 12) 63)).
+Proof. exact (cont_cell 12 c). Qed.
+Lemma cont_cell1 c : Z.lor 128 (Z.land (Z.shiftr (Z.of_N c) (Z.of_nat 1 * 6)) 63) = Z.of_N (N.lor 128 (N.land (N.shiftr c 6) 63)).
+Proof. exact (cont_cell 6 c). Qed.
+Lemma cont_cell0 c : Z.lor 128 (Z.land (Z.shiftr (Z.of_N c) (Z.of_nat 0 * 6)) 63) = Z.of_N (N.lor 128 (N.land c 63)).
+Proof. exact (cont_cell 0 c). Qed.
+
+(* after the lead byte: run the loop on l continuation bytes, store the terminator, collect the memory *)
+Ltac cput_tail Hm Hm0 l lz :=
+  rewrite wrap_I8_idem;
+  match goal with |- context [store ?mm ?b (Z.of_nat ?o) ?v] =>
+    rewrite (store_put mm b _ o [] v _ Hm0) by (cbn [length]; lia); cbn [app]; xstep;
+    change (VInt lz) with (VInt (Z.of_nat l));
+    change (SWhile _ _) with cput_loop;
+    match goal with |- context [exec ?call ?fuel cput_loop (mkst [VPtr _ ?p; VInt ?c; _] ?m1)] =>
+      assert (Hm1 : nth_error m1 b = Some (put_cells _ o [v])) by (apply (upd_mem_same _ b _ _ Hm));
+      rewrite (cput_loop_ok call b _ o c l fuel [v] m1 p) by (cbn [length]; first [exact Hm1 | lia]);
+      xstep; change (wrap I8 (wrap I8 0)) with 0;
+      match goal with |- context [store ?m2 b ?q (VInt 0)] =>
+        assert (Hm2 : nth_error m2 b = Some (put_cells _ o ([v] ++ conts c l))) by (apply (upd_mem_same _ b _ _ Hm1));
+        rewrite (store_put m2 b _ o ([v] ++ conts c l) (VInt 0) q Hm2)
+          by (rewrite ?app_length, ?conts_length; cbn [length]; lia);
+        xstep; rewrite (upd_mem_upd _ b _ _ _ Hm1), (upd_mem_upd _ b _ _ _ Hm)
+      end
+    end
+  end.
+
+(* uc_cput(d, c) for every non-negative int c: the cells d[0..n] receive the n bytes of the model's
+   encoding (UcDefs.uc_cput) as chars, then the terminator; nothing else in memory changes.  The
+   range is what the C text needs for this equality: c >> k and the conversions to char are defined
+   for every int, a negative c would store (char) c where the model (on N) has no argument *)
+Theorem tr_uc_cput m b blk o c d fuel : nth_error m b = Some blk -> (c <= 2147483647)%N ->
+  (o + length (uc_cput c) + 1 <= length blk)%nat -> (4 <= fuel)%nat ->
+  callf cprog fuel (S d) F_uc_cput [VPtr b (Z.of_nat o); VInt (Z.of_N c)] m
+  = Ok (VUndef, upd m b (put_cells blk o (map schar (uc_cput c) ++ [VInt 0]))).
+Proof.
+  intros Hm Hc Hroom Hf. enter F_uc_cput cf_uc_cput. xstep.
+  assert (Hm0 : nth_error m b = Some (put_cells blk o [])) by (rewrite put_cells_nil; exact Hm).
+  unfold uc_cput in *.
+  destruct (N.ltb_spec 65535 c) as [C4|C4].
+  { destruct (Z.ltb_spec 65535 (Z.of_N c)); [|lia]. xstep. cbn [length] in Hroom.
+    cput_tail Hm Hm0 3%nat 3. cbn [conts map app]. unfold schar.
+    rewrite lead_cell4, cont_cell2, cont_cell1, cont_cell0. reflexivity. }
+  destruct (Z.ltb_spec 65535 (Z.of_N c)); [lia|]. xstep.
+  destruct (N.ltb_spec 2047 c) as [C3|C3].
+  { destruct (Z.ltb_spec 2047 (Z.of_N c)); [|lia]. xstep. cbn [length] in Hroom.
+    cput_tail Hm Hm0 2%nat 2. cbn [conts map app]. unfold schar.
+    rewrite lead_cell3, cont_cell1, cont_cell0. reflexivity. }
+  destruct (Z.ltb_spec 2047 (Z.of_N c)); [lia|]. xstep.
+  destruct (N.ltb_spec 127 c) as [C2|C2].
+  { destruct (Z.ltb_spec 127 (Z.of_N c)); [|lia]. xstep. cbn [length] in Hroom.
+    cput_tail Hm Hm0 1%nat 1. cbn [conts map app]. unfold schar.
+    rewrite lead_cell2, cont_cell0. reflexivity. }
+  destruct (Z.ltb_spec 127 (Z.of_N c)); [lia|]. xstep. cbn [length] in Hroom.
+  cput_tail Hm Hm0 0%nat 0. cbn [conts map app]. unfold schar. reflexivity.
+Qed.
+
+(* ---- the same, cell by cell *)
+Lemma wrap_I8_mod256 y : wrap I8 y mod 256 = y mod 256.
+Proof.
+  unfold wrap. cbn [ity_bits ity_signed andb]. change (2 ^ 8) with 256. change (2 ^ (8 - 1)) with 128.
+  destruct (128 <=? y mod 256).
+  - rewrite <- (Z.mod_add (y mod 256 - 256) 1 256) by lia.
+    replace (y mod 256 - 256 + 1 * 256) with (y mod 256) by lia. apply Z.mod_mod. lia.
+  - apply Z.mod_mod. lia.
+Qed.
+
+Lemma load_put_inside (m : mem) b blk o vs k v : nth_error m b = Some blk -> (o + length vs <= length blk)%nat ->
+  nth_error vs k = Some v -> load (upd m b (put_cells blk o vs)) b (Z.of_nat (o + k)) = Ok v.
+Proof.
+  intros Hm Hl Hk. unfold load. rewrite (upd_mem_same m b _ _ Hm).
+  destruct (Z.ltb_spec (Z.of_nat (o + k)) 0); [lia|]. rewrite Nat2Z.id.
+  rewrite put_cells_inside by (try lia; apply nth_error_Some; congruence). rewrite Hk. reflexivity.
+Qed.
+Lemma load_put_outside (m : mem) b blk o vs k : nth_error m b = Some blk -> (o + length vs <= length blk)%nat ->
+  (k < o \/ o + length vs <= k)%nat -> load (upd m b (put_cells blk o vs)) b (Z.of_nat k) = load m b (Z.of_nat k).
+Proof.
+  intros Hm Hl Hk. unfold load. rewrite (upd_mem_same m b _ _ Hm), Hm.
+  destruct (Z.ltb_spec (Z.of_nat k) 0); [lia|]. rewrite Nat2Z.id. rewrite put_cells_outside by assumption. reflexivity.
+Qed.
+
+(* the bytes of the model's encoding are bytes for c < 2^26 (in particular for every code point <= 0x10ffff) *)
+Lemma uc_cput_lt256 c : (c < 67108864)%N -> bytes_lt256 (uc_cput c).
+Proof.
+  intro Hc. unfold uc_cput, bytes_lt256.
+  assert (K : forall x, (N.lor 128 (N.land x 63) < 256)%N).
+  { intro x. apply (lor_lt_pow2 128 _ 8); [lia|reflexivity|].
+    eapply N.lt_trans; [apply (land_mask_lt x 6)|reflexivity]. }
+  assert (S : forall k0 sh, (k0 < 256)%N -> (c < 2 ^ sh * 256)%N -> (N.lor k0 (N.shiftr c sh) < 256)%N).
+  { intros k0 sh H0 H1. apply (lor_lt_pow2 k0 _ 8); [lia|exact H0|].
+    rewrite N.shiftr_div_pow2. apply N.div_lt_upper_bound; [apply N.pow_nonzero; lia|exact H1]. }
+  destruct (N.ltb_spec 65535 c); [repeat constructor; try apply K; apply S; [reflexivity|exact Hc]|].
+  destruct (N.ltb_spec 2047 c); [repeat constructor; try apply K; apply S; [reflexivity|change (2 ^ 12 * 256)%N with 1048576%N; lia]|].
+  destruct (N.ltb_spec 127 c); [repeat constructor; try apply K; apply S; [reflexivity|change (2 ^ 6 * 256)%N with 16384%N; lia]|].
+  repeat constructor. lia.
+Qed.
+
+Theorem tr_uc_cput_cells m b blk o c d fuel : nth_error m b = Some blk -> (c <= 2147483647)%N ->
+  (o + length (uc_cput c) + 1 <= length blk)%nat -> (4 <= fuel)%nat ->
+  exists m', callf cprog fuel (S d) F_uc_cput [VPtr b (Z.of_nat o); VInt (Z.of_N c)] m = Ok (VUndef, m') /\
+    (forall k, (k < length (uc_cput c))%nat ->
+       exists z, load m' b (Z.of_nat (o + k)) = Ok (VInt z) /\ z mod 256 = Z.of_N (nthb (uc_cput c) k) mod 256) /\
+    load m' b (Z.of_nat (o + length (uc_cput c))) = Ok (VInt 0) /\
+    (forall k, (k < o \/ o + length (uc_cput c) < k)%nat -> load m' b (Z.of_nat k) = load m b (Z.of_nat k)) /\
+    (forall b' p, b' <> b -> load m' b' p = load m b' p).
+Proof.
+  intros Hm Hc Hroom Hf. eexists. split; [apply (tr_uc_cput m b blk o c d fuel Hm Hc Hroom Hf)|].
+  set (n := length (uc_cput c)) in *.
+  assert (L : length (map schar (uc_cput c) ++ [VInt 0]) = (n + 1)%nat) by (rewrite app_length, map_length; reflexivity).
+  repeat split.
+  - intros k Hk. exists (wrap I8 (Z.of_N (nthb (uc_cput c) k))). split; [|apply wrap_I8_mod256].
+    apply (load_put_inside m b blk o _ k _ Hm); [lia|].
+    rewrite nth_error_app1 by (rewrite map_length; exact Hk). rewrite nth_error_map.
+    unfold nthb. rewrite (nth_error_nth' (uc_cput c) 0%N Hk). reflexivity.
+  - apply (load_put_inside m b blk o _ n _ Hm); [lia|].
+    rewrite nth_error_app2 by (rewrite map_length; fold n; lia). rewrite map_length. fold n. rewrite Nat.sub_diag. reflexivity.
+  - intros k Hk. apply (load_put_outside m b blk o _ k Hm); lia.
+  - intros b' p Hb. apply load_upd_other_block; [|exact Hb]. apply nth_error_Some. intro X. pose proof (eq_trans (eq_sym X) Hm) as Y. discriminate Y.
+Qed.
